@@ -10,13 +10,14 @@ from . import c10_site as S
 from . import c10_run as R
 
 SLOTS = ['reqObj', 'respObj', 'bodyObj', 'hooks', 'hookLists', 'errorPage', 'namespaces', 'toolmaps', 'toolmapTools',
-         'params', 'headers', 'headerList', 'cookie', 'config', 'respHeaders', 'respCookie', 'respBody',
+         'params', 'headers', 'headerList', 'cookie', 'config', 'uniqueId', 'local', 'remote', 'respHeaders', 'respCookie', 'respBody',
          'processors', 'attemptCharsets', 'bodyParams', 'parts', 'bodyHeaders', 'requestParams']
 
 CLASS_CELL = {
     'Request.hooks': 'reqHooks', 'Request.error_page': 'reqErrorPage', 'Request.namespaces': 'reqNamespaces',
     'Request.toolmaps': 'reqToolmaps', 'Request.params': 'reqParams', 'Request.headers': 'reqHeaders',
     'Request.header_list': 'reqHeaderList', 'Request.cookie': 'reqCookie',
+    'Request.local': 'reqLocal', 'Request.remote': 'reqRemote',
     'Response.headers': 'respHeaders', 'Response.cookie': 'respCookie', 'Response.header_list': 'respHeaderList',
     'Entity.processors': 'entProcessors', 'Entity.attempt_charsets': 'entAttemptCharsets',
     'Part.attempt_charsets': 'partAttemptCharsets', 'Application.config': 'appConfig',
@@ -71,7 +72,8 @@ def slot_items(c):
         'toolmaps': keys(tm), 'toolmapTools': keys(tm.get('tools')),
         'params': keys(c.get('params')), 'headers': keys(c.get('headers')),
         'headerList': elems(c.get('headerList')), 'cookie': keys(c.get('cookie')),
-        'config': keys(c.get('config')),
+        'config': keys(c.get('config')), 'uniqueId': [],
+        'local': keys(c.get('local')), 'remote': keys(c.get('remote')),
         'respHeaders': keys(c.get('respHeaders')), 'respCookie': keys(c.get('respCookie')),
         'processors': keys(c.get('processors')), 'attemptCharsets': elems(c.get('attemptCharsets')),
         'bodyParams': keys(c.get('bodyParams')), 'parts': elems(c.get('parts')),
@@ -98,7 +100,8 @@ def slot_marker_text(c):
         'toolmaps': ' '.join(str(k) for k in tm), 'toolmapTools': ' '.join(str(k) for k in (tm.get('tools') or {})),
         'params': own_level(c.get('params')), 'headers': own_level(c.get('headers')),
         'headerList': json.dumps(c.get('headerList')), 'cookie': own_level(c.get('cookie')),
-        'config': own_level(c.get('config')),
+        'config': own_level(c.get('config')), 'uniqueId': '',
+        'local': own_level(c.get('local')), 'remote': own_level(c.get('remote')),
         'respHeaders': own_level(c.get('respHeaders')), 'respCookie': own_level(c.get('respCookie')),
         'processors': own_level(c.get('processors')), 'attemptCharsets': json.dumps(c.get('attemptCharsets')),
         'bodyParams': own_level(c.get('bodyParams')), 'parts': json.dumps(c.get('parts')),
@@ -430,6 +433,8 @@ def op_tokens(t, op, intern, item_no, before, marker_point):
     slot, kind = S.OPS[name]
     slot = OP_SLOT.get(slot, slot)
     m = intern.marker(marker)
+    if name in ('remote.ip.set', 'local.name.set'):      # an overwrite: the previous marker value is gone
+        return ['M:%d:%s:c:0' % (t, slot), 'M:%d:%s:a:%d' % (t, slot, m)]
     if kind == 'set':
         return []
     if name == 'hooks.newpoint':
